@@ -140,6 +140,8 @@ package state
 // Fee outputs go to (and on undo leave) the block's proposer, with the output's amount.
 //@ func State.payFee
 //@   property C02
+//@   ensures [C01] every_fee_output_is_stored: result == nil ==> (forall o int :: 0 <= o && o < len(tx.TxOutputs) && isFeeOut(tx, o) ==> ubop(batch, feeUKey(tx, block, o)) == 1)
+//@   loop 1 invariant [C01] stored_so_far: 0 <= $i && $i <= len(tx.TxOutputs) && (forall o int :: 0 <= o && o < $i && isFeeOut(tx, o) ==> ubop(batch, feeUKey(tx, block, o)) == 1)
 //@   local txOutput *protos.TxOutput
 //@   at UtxoVM.AddBalance assert fee_to_proposer: $0 == block.Proposer && sel(bigval, $1) == natOf(txOutput.Amount)
 // The fee output exists under ONE key - (proposer, txid, offset) - in the table (batch),
@@ -148,8 +150,15 @@ package state
 //@   local offset int
 //@   at Batch.Put assert fee_output_stored_for_the_proposer: recv == batch && str($0) == utxoKey && utxoKey == ukeyOf(block.Proposer, tx.Txid, offset) && str(txOutput.ToAddr) == FeePlaceholder
 //@   at UtxoCache.Insert assert fee_output_cached_for_the_proposer: recv == t.utxo.UtxoCache && $0 == str(block.Proposer) && $1 == utxoKey
+// C01: undoing a block takes back exactly the fee outputs playing it created: every
+// output addressed to the placeholder - whatever its amount - is stored for the proposer
+// by payFee and deleted by undoPayFee.
+//@ macro feeUKey(tx, block, o) = utxo.GenUtxoKeyWithPrefix(block.Proposer, tx.Txid, o)
+//@ macro isFeeOut(tx, o) = str(tx.TxOutputs[o].ToAddr) == FeePlaceholder
 //@ func State.undoPayFee
 //@   property C02
+//@   ensures [C01] every_fee_output_is_deleted: result == nil ==> (forall o int :: 0 <= o && o < len(tx.TxOutputs) && isFeeOut(tx, o) ==> ubop(batch, feeUKey(tx, block, o)) == 2)
+//@   loop 1 invariant [C01] deleted_so_far: 0 <= $i && $i <= len(tx.TxOutputs) && (forall o int :: 0 <= o && o < $i && isFeeOut(tx, o) ==> ubop(batch, feeUKey(tx, block, o)) == 2)
 //@   local txOutput *protos.TxOutput
 //@   local utxoKey string
 //@   local offset int
